@@ -54,6 +54,9 @@ func (w *Writer) Write(x interface{}) {
 	w.N++
 }
 
+// Flush makes everything written so far durable in the file (used by commands whose process may be killed by the code under test).
+func (w *Writer) Flush() { w.w.Flush() }
+
 func (w *Writer) Close() error {
 	if err := w.w.Flush(); err != nil {
 		return err
